@@ -1308,7 +1308,6 @@ def attachment_cases(ctx, cases, info):
     from sharepoint2text.parsing import router
     from sharepoint2text.parsing.exceptions import ExtractionFileFormatNotSupportedError
     from sharepoint2text.parsing.extractors.mail.eml_email_extractor import read_eml_format_mail
-    from sharepoint2text.parsing.extractors.mail.mbox_email_extractor import read_mbox_format_mail
     rng = ctx.rng
     enc_pool = [(os.path.basename(f), open(f, "rb").read()) for f in sorted(glob.glob(str(RES / "**" / "password_protected" / "*"), recursive=True))]
     bio = io.BytesIO()
@@ -1351,10 +1350,8 @@ def attachment_cases(ctx, cases, info):
             kinds.append(cls_cache[name][1])
         expect_enc = "AtEnc" in kinds
         raw = _eml(atts)
-        for container, reader, blob in (("eml", read_eml_format_mail, raw),
-                                        ("mbox", read_mbox_format_mail, b"From a@example.org Mon Jan  1 10:00:00 2024\n" + raw + b"\n")):
-            if container == "mbox" and rng.random() < 0.6:
-                continue
+        # (the mbox reader skips attachment parts by design; .msg needs an Outlook OLE writer — not built)
+        for container, reader, blob in (("eml", read_eml_format_mail, raw),):
             try:
                 mail = list(reader(io.BytesIO(blob), path="m." + container))[0]
             except Exception as e:  # noqa
